@@ -64,6 +64,46 @@ def game_cases(draw, max_inner=9):
     return dict(kind="game", game=g, prune=games.coin(draw), fam=fam)
 
 
+HUGE = (10 ** 25, 10 ** 25 + 1, 10 ** 25 + 2, 2 ** 53, 2 ** 53 + 1, 2 ** 53 + 2, 2 ** 64 + 1, 0, 1)
+
+
+@st.composite
+def huge_int_cases(draw):
+    """Loop-free games in pure integer arithmetic (integer rewards beyond 2**53, every probability the integer
+    1): the solver's sums are exact there, so rewards that differ by 1 in 10**25 are different rewards."""
+    owner = draw(st.sampled_from((P1, P2)))
+    k = draw(st.integers(2, 4))
+    tl, players, rewards = [[]], [owner], [draw(st.sampled_from((0, 1, 10 ** 25)))]
+    branches = []
+    base = draw(st.sampled_from((10 ** 25, 2 ** 53, 2 ** 64)))
+    for i in range(k):
+        depth = draw(st.integers(1, 3))
+        first = len(tl)
+        total = 0
+        for d in range(depth):
+            r = base + draw(st.integers(0, 2)) if d == 0 else draw(st.sampled_from(HUGE))
+            total += r
+            players.append(draw(st.sampled_from((PR, PR, P1, P2))))
+            rewards.append(r)
+            tl.append(None)
+        branches.append((first, depth, total))
+    goal = len(tl)
+    for first, depth, _ in branches:
+        for d in range(depth):
+            s = first + d
+            nxt = s + 1 if d + 1 < depth else goal
+            tl[s] = [(1, nxt)] if players[s] == PR else [("go", nxt)]
+    tl[0] = [(games.NAMES[i], b[0]) for i, b in enumerate(branches)]
+    tl.append([(1, goal)])
+    players.append(PR)
+    rewards.append(0)
+    totals = [b[2] for b in branches]
+    best = max(totals) if owner == P1 else min(totals)
+    game = dict(rewards=rewards, players=players, transition_list=tl, final_states=[goal])
+    return dict(kind="huge_int", game=game, expect=[games.NAMES[i] for i, t in enumerate(totals) if t == best],
+                totals=[str(t) for t in totals])
+
+
 @st.composite
 def board_cases(draw, max_len=3, max_wid=3):
     b = draw(boards.boards(max_len=max_len, max_wid=max_wid))
@@ -99,6 +139,8 @@ def phases(tier):
         Phase("slow-rewarded-loops", enum=slow_cases,
               note="reach-tied branches whose rewards only separate after 10^3..10^5 sweeps"),
         Phase("games-exact-sets", strategy=lambda: game_cases(9 if tier == "quick" else 12), examples=(1600, 60000)),
+        Phase("integer-rewards-beyond-2^53", strategy=huge_int_cases, examples=(200, 6000),
+              note="loop-free games in pure integer arithmetic: rewards differing by 1 in 10^25 are different"),
         Phase("boards-inclusion", strategy=lambda: board_cases(3, 3) if tier == "quick" else board_cases(4, 4),
               examples=(60, 1200)),
         Phase("big-boards-inclusion", enum=big_boards(tier)),
@@ -128,7 +170,33 @@ def inclusion(v, players, final, reach, label):
                 v.fail("final-order-differs", f"{label}: Player 1 state {s}: final {final[s]} vs reach {reach[s]}")
 
 
+def check_huge_int(case):
+    v = Verdict()
+    game = case["game"]
+    v.cls("integer_arithmetic_exact")
+    v.nontrivial = True
+    if len(case["expect"]) >= 2:
+        v.cls("exact_reward_tie")
+    if len(set(case["totals"])) >= 2:
+        v.cls("p2_reward_choice" if game["players"][0] == P2 else "p1_reward_choice")
+    for prune in (False, True):
+        o = solve(game, prune, sweeps=200)
+        if o.kind != "ok":
+            v.fail("solve-raises", f"solve(prune={prune}): {o.brief()}", sig=o.kind)
+            continue
+        inclusion(v, game["players"], o.result[0], o.result[1], f"solve(prune={prune})")
+        got = o.result[0][0]
+        if got != case["expect"]:
+            v.fail("wrong-final-strategy",
+                   f"solve(prune={prune}): state 0 ({game['players'][0]}) reports {got}, exact reward-optimal actions "
+                   f"{case['expect']}; branch totals {case['totals']} (pure integer arithmetic), reported rewards "
+                   f"{[o.result[2][t] for _, t in game['transition_list'][0]]}", sig=game["players"][0] + ":huge-int")
+    return v
+
+
 def check_case(case):
+    if case.get("kind") == "huge_int":
+        return check_huge_int(case)
     v = Verdict()
     prune = case["prune"]
     v.cls("prune" if prune else "no_prune")
@@ -210,6 +278,11 @@ def check_case(case):
             continue
         if tie and near_boundary(opt, 6):
             v.cls("undecided_rounding_boundary")
+            continue
+        if tie and opt > 10 ** 8 and not all(type(a.rew[t]) is int for _, t in lst):
+            # doubles of this size are further apart than the 6th decimal the solver compares at: two equal
+            # rationals reached through different float sums (or one through integers only) need not compare equal
+            v.cls("undecided_beyond_float_resolution")
             continue
         expect = [lst[i][0] for i in co]
         if tie:
